@@ -32,7 +32,10 @@ def rb(rng, n):
 
 def flips(rng, b, dense):
     n = 8 * len(b)
-    idx = range(n) if dense or n <= 64 else sorted(set(rng.sample(range(n), 24) + [0, n - 1]))
+    if dense and n > 1024:      # long fields: one bit in every byte
+        idx = [8 * i + rng.randrange(8) for i in range(n // 8)]
+    else:
+        idx = range(n) if dense or n <= 64 else sorted(set(rng.sample(range(n), 24) + [0, n - 1]))
     for i in idx:
         x = bytearray(b)
         x[i // 8] ^= 1 << (i % 8)
@@ -47,6 +50,10 @@ def gen(ctx, tier, rng):
     for n in lens:
         for (name, kb, nb, ab) in AEADS:
             T.append(("aead", name, rb(rng, n), rb(rng, rng.choice([0, 5, 16, 21])), rb(rng, nb), rb(rng, kb), ab))
+    # long associated data / long ciphertexts: flips must be caught at every position of every internal aggregation width
+    for (name, kb, nb, ab) in AEADS:
+        for (n, adl) in ((3, 224), (3, 225), (0, 448), (17, 500), (224, 0), (240, 7), (500, 300)) + (((1000, 1000),) if full else ()):
+            T.append(("aead", name, rb(rng, n), rb(rng, adl), rb(rng, nb), rb(rng, kb), ab))
         for v in ("xsalsa", "xchacha"):
             T.append(("sb", v, rb(rng, n), b"", rb(rng, 24), rb(rng, 32), 16))
     return T
@@ -69,7 +76,7 @@ def post_model(ctx, T, run_model):
         c = b"" if cs == "-" else bytes.fromhex(cs)
         mac = bytes.fromhex(macs)
         kind, name, m, ad, n, k, ab = t
-        dense = len(m) <= 20 or full
+        dense = len(m) <= 20 or full or len(ad) >= 200 or len(m) >= 200
 
         def dec(w, c_, mac_, ad_, n_, k_):
             if kind == "aead":
